@@ -152,7 +152,7 @@ func (c *Ctx) isWork(in ssa.Instruction, input *ssa.Parameter) (string, bool) {
 		// the input handed to a function of the module: whatever it does with it is work — unless it only builds
 		// an error value from it (a constructor: its one result is an error type)
 		if inRepo(f) {
-			for _, a := range x.Call.Args {
+			for ai, a := range x.Call.Args {
 				if rootParam(a) != input {
 					continue
 				}
@@ -160,11 +160,45 @@ func (c *Ctx) isWork(in ssa.Instruction, input *ssa.Parameter) (string, bool) {
 				if res.Len() == 1 && implementsError(res.At(0).Type()) {
 					continue
 				}
+				// a function that checks the limit itself before it works on the text (the parser proper, entered
+				// from more than one place), or one that does no work on it at all (it builds the failure result)
+				if g := origin(f); ai < len(g.Params) && len(g.Blocks) > 0 {
+					if c.findGuard(g, g.Params[ai]) != nil || c.delegatesGuard(g, ai, 0) || !c.worksOn(g, ai, 0) {
+						continue
+					}
+				}
 				return "call of " + FnName(f) + " with the input", true
 			}
 		}
 	}
 	return "", false
+}
+
+// worksOn: fn, or a function of the module it hands the parameter to, does work on parameter pi.
+func (c *Ctx) worksOn(fn *ssa.Function, pi int, depth int) bool {
+	if depth > 3 {
+		return true
+	}
+	for _, b := range fn.Blocks {
+		for _, in := range b.Instrs {
+			if call, ok := in.(*ssa.Call); ok {
+				if f := c.StaticCallee(&call.Call); f != nil && inRepo(f) {
+					for ai, a := range call.Call.Args {
+						if rootParam(a) == fn.Params[pi] {
+							if g := origin(f); ai >= len(g.Params) || len(g.Blocks) == 0 || c.worksOn(g, ai, depth+1) {
+								return true
+							}
+						}
+					}
+					continue
+				}
+			}
+			if _, ok := c.isWork(in, fn.Params[pi]); ok {
+				return true
+			}
+		}
+	}
+	return false
 }
 
 // implementsError: t (or *t) has an Error() string method.
